@@ -517,6 +517,13 @@ def run_c05(rep):
     fam_saveload.session_probes(rep)
     import fam_reads
     fam_reads.reads_invisible(rep, sizes(rep, 15, 300), "C05")      # "save_state() ... has no effect on the running game"
+    # "every continuation behaves exactly as it would have in the original session": also the 50-step undo limit
+    pr = corr_play.run_fixed(":: Start\n~ n = 0\nHi\n+ [again] -> Loop\n\n:: Loop\n~ n = n + 1\nRound {n}\n+ [again] -> Loop\n",
+                             [{"op": "choose", "i": 0}, {"op": "save"}, {"op": "fresh_load", "slot": 0}] + [{"op": "choose", "i": 0}] * 58 + [{"op": "undo"}] * 54 +
+                             [{"op": "save"}, {"op": "load", "slot": 1}] + [{"op": "choose", "i": 0}] * 53 + [{"op": "undo"}] * 52, case_id="c05-cap-after-load")
+    pr["cycles"] = False
+    for f in oracles.oracle_c04(pr):
+        rep.violations.append(dict(f, family="c05-probe", id="c05-cap-after-load", source=pr["source"], ops=pr["ops"], oracle="oracle_c04", variant="main"))
     import fam_codec
     fam_codec.stdlib_observation_family(rep, sizes(rep, 300, 5000))
     fam_codec.same_name_probe(rep, "C05")
@@ -543,6 +550,7 @@ def run_c06(rep):
     fam_codec.codec_family(rep, n, depth)
     fam_codec.stdlib_observation_family(rep, sizes(rep, 300, 5000))
     fam_codec.same_name_probe(rep, "C06")
+    fam_codec.history_probes(rep, "C06")
     # names bound by import lines are still usable after a load
     src = ("import math\nfrom bardic.stdlib.dice import roll\nfrom bardic.stdlib.economy import Wallet\n"
            ":: Start\n~ w = Wallet(3)\nhi\n+ [go] -> Next\n\n:: Next\n~ w2 = Wallet(math.floor(2.5))\n"
@@ -621,6 +629,7 @@ def run_c12(rep):
     import fam_text
     fam_text.initial_passage_family(rep, sizes(rep, 600, 12000))
     fam_text.symlink_start_probe(rep)
+    fam_graph.fixed_graph_probes(rep, "C12")
     text_tie(rep, "c12-text", quick=(200, 200, 150), thorough=(4000, 4000, 3000))
 
 
@@ -654,7 +663,7 @@ def run_c16(rep):
     fam_reads.reads_invisible(rep, sizes(rep, 15, 300), "C16")      # same inputs, same outputs, whatever is read in between
     # compilation is a function of the files as they are NOW: an included file edited between two compilations
     import fam_include
-    fam_include.edit_recompile_probe(rep, "C16")
+    fam_include.history_probes(rep, "C16")      # every history: failures, repairs, shared files, edits, one output path
     # the model side of the tie: an ordinary play family (the model is a function of story + calls)
     n2, ops2 = sizes(rep, (200, 14), (3000, 40))
     families.play_family(rep, n2, ops2, features=dict(hooks=0.4, join=0.4, render=0.5),
@@ -686,6 +695,7 @@ def run_c01(rep):
     import fam_compile
     fam_compile.compile_family(rep, sizes(rep, 400, 8000))
     text_tie(rep, "c01-text", quick=(60, 150, 400), thorough=(1000, 3000, 10000))
+    c07_sessions(rep)        # a parameter default is part of the source: the same call shows the same thing on every visit
     n, ops = sizes(rep, (800, 14), (8000, 50))
     before = len(rep.disagreements)
     families.play_family(rep, n, ops, features=dict(fam_compile.FEATURES, stmt_faults=0.02),
